@@ -121,6 +121,113 @@ func sameValues(a, b []eval.Value) bool {
 	return true
 }
 
+// loopStacksConsistent checks the Stack snapshots of the LOOP events of one Eval run against the
+// operand-stack discipline, using nothing but the events themselves and the binding: the first
+// snapshot is empty, and from one LOOP event to the next the stack changes as the node named by the
+// first one dictates - a constant or variable pushes its value, an operator replaces the arguments
+// its OP_EXEC event shows (which are the top of the snapshot) by its result, a two-leaf fast
+// operator pushes its result, `if` pops the condition, the end-if marker changes nothing - after
+// which a boolean on top may have decided enclosing and/or operators, which drops operands below it.
+func loopStacksConsistent(recs []evRec, vars map[string]interface{}) string {
+	eq := func(a, b interface{}) bool {
+		return m.EqualVal(a, b) || fmt.Sprintf("%T%v", a, a) == fmt.Sprintf("%T%v", b, b)
+	}
+	show := func(s []eval.Value) string { return fmt.Sprintf("%v", s) }
+	var prev *evRec
+	var prevData eval.LoopEventData
+	var ops []eval.OpEventData // OP_EXEC events since prev
+	first := true
+	for i := range recs {
+		rec := &recs[i]
+		switch d := rec.ev.Data.(type) {
+		case eval.OpEventData:
+			ops = append(ops, d)
+			continue
+		case eval.LoopEventData:
+			S := rec.ev.Stack
+			if first {
+				first = false
+				if len(S) != 0 {
+					return fmt.Sprintf("the first LOOP event (position %d) reports a non-empty operand stack %s", d.CurtIdx, show(S))
+				}
+			}
+			if prev != nil {
+				P := prev.ev.Stack
+				var X []eval.Value // the stack right after the previous node
+				pushed := false
+				switch prevData.NodeType {
+				case eval.ConstantNode:
+					X, pushed = append(append(X, P...), prevData.NodeValue), true
+				case eval.VariableNode:
+					name, _ := prevData.NodeValue.(string)
+					v, bound := vars[name]
+					if !bound {
+						return "" // a failing fetch ends the evaluation; anything else is not modelled
+					}
+					X, pushed = append(append(X, P...), v), true
+				case eval.OperatorNode:
+					if len(ops) != 1 {
+						return fmt.Sprintf("operator %v at position %d was passed (another LOOP event follows) with %d OP_EXEC events", prevData.NodeValue, prevData.CurtIdx, len(ops))
+					}
+					k := len(ops[0].Params)
+					if len(P) < k {
+						return fmt.Sprintf("operator %v at position %d takes %d arguments but the LOOP snapshot before it holds %s", prevData.NodeValue, prevData.CurtIdx, k, show(P))
+					}
+					for j := 0; j < k; j++ {
+						if !eq(P[len(P)-k+j], ops[0].Params[j]) {
+							return fmt.Sprintf("operator %v at position %d was applied to %v, but the LOOP snapshot before it ends in %s", prevData.NodeValue, prevData.CurtIdx, ops[0].Params, show(P))
+						}
+					}
+					X, pushed = append(append(X, P[:len(P)-k]...), ops[0].Res), true
+				case eval.FastOperatorNode:
+					if len(ops) != 1 {
+						return fmt.Sprintf("fast operator %v at position %d was passed with %d OP_EXEC events", prevData.NodeValue, prevData.CurtIdx, len(ops))
+					}
+					X, pushed = append(append(X, P...), ops[0].Res), true
+				case eval.CondNode:
+					if fmt.Sprint(prevData.NodeValue) == "if" {
+						if len(P) == 0 {
+							return fmt.Sprintf("`if` at position %d finds an empty operand stack", prevData.CurtIdx)
+						}
+						if _, isBool := P[len(P)-1].(bool); !isBool {
+							return fmt.Sprintf("`if` at position %d was passed although the top of the stack %s is not a boolean", prevData.CurtIdx, show(P))
+						}
+						X = append(X, P[:len(P)-1]...)
+					} else {
+						X = append(X, P...)
+					}
+				default:
+					return fmt.Sprintf("LOOP event for a node of type %v", prevData.NodeType)
+				}
+				ok := len(S) == len(X)
+				if !ok && pushed && len(S) >= 1 && len(S) < len(X) {
+					if _, isBool := X[len(X)-1].(bool); isBool {
+						ok = true // decided enclosing and/or operators: operands below the boolean are dropped
+					}
+				}
+				if ok {
+					for j := 0; j+1 < len(S); j++ { // everything below the top is an unchanged prefix
+						if !eq(S[j], X[j]) {
+							ok = false
+						}
+					}
+					if len(S) > 0 && pushed && !eq(S[len(S)-1], X[len(X)-1]) {
+						ok = false
+					}
+					if len(S) > 0 && !pushed && !eq(S[len(S)-1], X[len(S)-1]) {
+						ok = false
+					}
+				}
+				if !ok {
+					return fmt.Sprintf("LOOP event at position %d reports the operand stack %s; the previous LOOP event (position %d, %v %v) reported %s, so after that node the stack is %s (or, if a boolean on top decided enclosing and/or operators, a prefix of it below that boolean)", d.CurtIdx, show(S), prevData.CurtIdx, prevData.NodeType, prevData.NodeValue, show(P), show(X))
+				}
+			}
+			prev, prevData, ops = rec, d, nil
+		}
+	}
+	return ""
+}
+
 func checkC12(c C12Case, r *Rec) *Violation {
 	u := &c.U
 	src := m.Render(c.Tree)
@@ -234,6 +341,12 @@ func checkC12(c C12Case, r *Rec) *Violation {
 					return Violf("C12: unknown event type %q\n%s", rec.ev.EventType, where())
 				}
 			}
+			// (iv) the LOOP snapshots follow the operand-stack discipline
+			if !c.Try {
+				if why := loopStacksConsistent(recs, run.vars); why != "" {
+					return Violf("C12: the Stack of a LOOP event is not the operand stack at that point: %s\n%s", why, where())
+				}
+			}
 			// (ii) OP_EXEC events are exactly the operator applications of this evaluation
 			if !c.Try {
 				ref := &m.Env{Vars: run.vars, Fail: u.Fail(), Custom: customModel(), Calls: run.calls, Fast: mask&MaskFast != 0}
@@ -301,7 +414,7 @@ func checkC12(c C12Case, r *Rec) *Violation {
 
 var propC12 = Prop[C12Case]{
 	ID:    "C12",
-	Rule:  "typed random expression (custom, stateful and failing operators, failing variables) x optimization subsets (4 per case quick, 16 thorough) x binding x {Eval, TryEval with an availability split} x {ReportEvent, Debug} x consumer {synchronous reader copying on receipt; buffered channel drained after the call; reader that overwrites every Stack slice it receives}. Oracles: result, effect trace and Dump equal to the same case compiled without events; OP_EXEC events read after the evaluation equal, in order, the operator applications (name, arguments, result/error) that R/R_fast performs on the dumped tree (the final fold of a non-fast and/or with no absorbing operand is optional); TryEval: registered-operator events equal the operators' own call log, built-in events are self-consistent under the operator model, no DNE argument; events retained by the consumer equal the copies taken at receipt; LOOP positions strictly increase. Non-trivial = at least two binary-operator applications and a consumer that is not the synchronous copying one; distinct by source + binding + consumer",
+	Rule:  "typed random expression (custom, stateful and failing operators, failing variables) x optimization subsets (4 per case quick, 16 thorough) x binding x {Eval, TryEval with an availability split} x {ReportEvent, Debug} x consumer {synchronous reader copying on receipt; buffered channel drained after the call; reader that overwrites every Stack slice it receives}. Oracles: result, effect trace and Dump equal to the same case compiled without events; OP_EXEC events read after the evaluation equal, in order, the operator applications (name, arguments, result/error) that R/R_fast performs on the dumped tree (the final fold of a non-fast and/or with no absorbing operand is optional); TryEval: registered-operator events equal the operators' own call log, built-in events are self-consistent under the operator model, no DNE argument; events retained by the consumer equal the copies taken at receipt; LOOP positions strictly increase, and (Eval) the Stack snapshots follow the operand-stack discipline from one LOOP event to the next: first one empty, a leaf pushes its value, an operator replaces the arguments of its OP_EXEC event - the top of the snapshot - by its result, `if` pops the condition, the end-if marker changes nothing, a deciding boolean may drop operands below it. Non-trivial = at least two binary-operator applications and a consumer that is not the synchronous copying one; distinct by source + binding + consumer",
 	Gen:   genC12,
 	Check: checkC12,
 }
